@@ -81,6 +81,7 @@ def c12(run):
     r_session.run_ref_hold(run, P)
     r_session.run_sess_evt(run, P)
     r_session.run_teardown(run, P)
+    r_session.run_hashed(run, P)
     from rules import r_ownlocal
     r_ownlocal.run(run, P)
     run.min_instances('R-OWN-LOCAL', 30)
@@ -333,6 +334,8 @@ def c19(run):
     P = run.prog('rel')
     r_route.run(run, P)
     r_route.run_psk(run, P)
+    from rules import r_delayq
+    r_delayq.run(run, P)
     run.min_instances('R-ROUTE', 8)
     run.assumptions = ASSUME_COMMON + ["credential acceptance happens inside GnuTLS (gnutls_handshake returns GNUTLS_E_SUCCESS only for credentials both sides accept)",
                                        "handshake schedules and NACK-once for queued requests are NOT decided"]
